@@ -3,6 +3,8 @@ package checks
 import (
 	"encoding/json"
 	"fmt"
+	"regexp"
+	"strconv"
 	"strings"
 	"time"
 
@@ -291,6 +293,18 @@ func c18Run(env *Env) *Result {
 
 var c18seen = map[string]bool{}
 
+var reYsonInt = regexp.MustCompile(`(?:Long|Int)\((-?\d+)\)`)
+
+// bigIntIn reports whether a YSON text contains an integer beyond 2^53.
+func bigIntIn(s string) bool {
+	for _, m := range reYsonInt.FindAllStringSubmatch(s, -1) {
+		if v, err := strconv.ParseInt(m[1], 10, 64); err == nil && (v > 1<<53 || v < -(1<<53)) {
+			return true
+		}
+	}
+	return false
+}
+
 var c18HSpec = &HSpec{ID: "C18",
 	Scenarios: func(tier string) []*hist.Scenario {
 		var out []*hist.Scenario
@@ -312,6 +326,18 @@ var c18HSpec = &HSpec{ID: "C18",
 					N: 2, Init: f.init, Alphabet: al, K: k, Y: y, Cfg: never})
 			}
 		}
+		// revisions through the real server: create a revision and restore it at
+		// every position of a history (revisions.Create / revisions.Restore)
+		for _, f := range fams {
+			for _, op := range f.ops {
+				n := 1
+				if tier == "thorough" {
+					n = 2
+				}
+				out = append(out, &hist.Scenario{Name: fmt.Sprintf("c18/revision/%s/%s/N%dK2Y2E2", f.name, op, n),
+					N: n, Init: f.init, Alphabet: []string{op}, K: 2, Y: 2, Env: []string{"rev", "rst"}, E: 2, Cfg: never})
+			}
+		}
 		// presence and mixed types
 		out = append(out, &hist.Scenario{Name: "c18/reach/mixed/N2K2Y2", N: 2, Init: []string{"init.o", "init.a", "init.t", "init.c", "init.tr"},
 			Alphabet: []string{"o.setarr1", "a.pushobj", "t.styF", "c.incmax", "tr.sty0"}, K: 2, Y: 2, Cfg: never})
@@ -325,6 +351,30 @@ var c18HSpec = &HSpec{ID: "C18",
 		}
 		x.Quiesce()
 		var viol []hist.Violation
+		if len(sc.Env) > 0 {
+			// revision scenarios: what rev / rst found, then everybody converges on
+			// the restored content
+			convergenceOracle(x)
+			restored := false
+			for _, e := range h {
+				if e.K == "rst" {
+					restored = true
+				}
+			}
+			for _, v := range x.Viol {
+				if v.Kind == "revision" && bigIntIn(v.Detail) {
+					// the listed finding (numbers in YSON text go through float64), seen through a revision
+					v.Core = "yson-roundtrip|text-parse|integer-beyond-2^53"
+				}
+				if v.Kind == "revision" || v.Kind == "panic" || (restored && (v.Kind == "sync-error" || v.Kind == "diverge" || v.Kind == "server-rebuild-error")) {
+					viol = append(viol, v)
+				}
+			}
+			if res != nil && restored {
+				res.Count("revisions_restored", 1)
+			}
+			return viol, false
+		}
 		if x.Aborted {
 			return nil, false
 		}
@@ -371,6 +421,7 @@ func init() {
 		Level: "exploration",
 		Rule: "(i) every distinct document reached by all normal-form 2-client histories (K<=2 edits, Y<=2 syncs, every edit kind of every data type; thorough: every pair) is exported with yson.FromCRDT, marshalled, parsed back (equal text), " +
 			"imported with SetYSON into a new Document (value and parsed value) and re-exported (equal text, Root()==Marshal()); a forced server compaction (which runs the same rebuild-compare) must succeed; " +
+			"(i') revisions through the real server: revisions.Create and revisions.Restore as environment events at EVERY position of all histories of <=2 edits and <=2 syncs per edit kind (1 client; thorough 2): the revision holds the YSON of the server's document at creation, right after a restore the server's document is exactly the revision's content, and all replicas converge afterwards; " +
 			"(ii) generated YSON: 31 leaf/element values (null/bool/double/strings with escapes and unicode/Int/Long/BinData/Date, Int/Long/dedup counters, plain/styled/same-attribute texts, empty/attributed/nested trees) " +
 			"in 5 container contexts each plus every ordered pair of values as object members and array items (thorough: a third of all triples, nested); non-trivial = all; distinct by construction",
 		Assume:      []string{"revision restore uses the same export/import functions; the revision RPCs themselves are not driven"},
